@@ -47,6 +47,72 @@ func (g *dtGen) normStmts(l []ast.Stmt) string {
 	return strings.Join(parts, "; ")
 }
 
+// value of a package-level integer constant written as a literal, a shift or a product of such
+func (g *dtGen) constValue(name string) (int64, bool) {
+	var eval func(e ast.Expr, depth int) (int64, bool)
+	find := func(n string) ast.Expr {
+		for _, f := range g.p.files {
+			for _, d := range f.Decls {
+				gd, ok := d.(*ast.GenDecl)
+				if !ok || gd.Tok != token.CONST {
+					continue
+				}
+				for _, sp := range gd.Specs {
+					vs := sp.(*ast.ValueSpec)
+					for i, id := range vs.Names {
+						if id.Name == n && i < len(vs.Values) {
+							return vs.Values[i]
+						}
+					}
+				}
+			}
+		}
+		return nil
+	}
+	eval = func(e ast.Expr, depth int) (int64, bool) {
+		if depth > 8 {
+			return 0, false
+		}
+		switch x := e.(type) {
+		case *ast.BasicLit:
+			if x.Kind == token.INT {
+				v, err := strconv.ParseInt(x.Value, 0, 64)
+				return v, err == nil
+			}
+		case *ast.ParenExpr:
+			return eval(x.X, depth+1)
+		case *ast.Ident:
+			if d := find(x.Name); d != nil {
+				return eval(d, depth+1)
+			}
+		case *ast.BinaryExpr:
+			a, ok1 := eval(x.X, depth+1)
+			b, ok2 := eval(x.Y, depth+1)
+			if !ok1 || !ok2 {
+				return 0, false
+			}
+			switch x.Op {
+			case token.SHL:
+				if b >= 0 && b < 62 {
+					return a << uint(b), true
+				}
+			case token.MUL:
+				return a * b, true
+			case token.ADD:
+				return a + b, true
+			case token.SUB:
+				return a - b, true
+			}
+		}
+		return 0, false
+	}
+	d := find(name)
+	if d == nil {
+		return 0, false
+	}
+	return eval(d, 0)
+}
+
 func dtStr(s string) string {
 	return "\"" + strings.ReplaceAll(s, "\"", "\"\"") + "\""
 }
@@ -311,7 +377,6 @@ var constActions = map[string]string{
 	"*p = dec.ReadBigInt()":                         "AReadBigInt NtIface",
 	"*p = dec.readBigFloat(t)":                      "AReadBigFloat NtBigFloat",
 	"*p = dec.ReadBigFloat()":                       "AReadBigFloat NtIface",
-	"if bf := dec.readBigFloat(t); bf != nil { *p, _ = bf.Int(nil) }": "AReadBigFloat NtBigInt",
 	"*p = new(big.Rat).SetFloat64(dec.ReadFloat64())": "AReadFloat false NtBigRat",
 	"*p = time.Unix(0, int64(dec.ReadFloat64()))":     "AReadFloat false NtTime",
 	`dec.Error = DecodeError("hprose/io: can not parse NaN to *big.Float")`: "AFail",
@@ -406,6 +471,11 @@ func (g *dtGen) classify(s string, iface bool) string {
 	}
 	if a, ok := bodyActions[s]; ok {
 		return a
+	}
+	if s == bigIntDoubleArm {
+		if v, ok := g.constValue("maxBigIntBits"); ok && v >= 0 {
+			return fmt.Sprintf("AReadBigFloatInt %d", v)
+		}
 	}
 	if m := reReadPlain.FindStringSubmatch(s); m != nil {
 		if iface {
@@ -724,6 +794,12 @@ func (g *dtGen) wrapperOf(key string) string {
 	return "WUnknownWrapper " + dtStr(s)
 }
 
+// decodeBigInt, TagDouble: the float text is refused when its integer would need more than maxBigIntBits binary digits
+const bigIntDoubleArm = "if bf := dec.readBigFloat(t); bf != nil { if bf.MantExp(nil) > maxBigIntBits { if dec.Error == nil { dec.Error = CastError{Source: bigFloatType, Destination: t} } return } *p, _ = bf.Int(nil) }"
+
+// exponentTooLarge, recognised verbatim
+const exponentTooLargeBody = `marks, m := "eEpP", s; if len(m) > 0 && (m[0] == '+' || m[0] == '-') { m = m[1:] }; if len(m) > 1 && m[0] == '0' && (m[1] == 'x' || m[1] == 'X') { marks = "pP" }; i := strings.LastIndexAny(s, marks); if i < 0 { return false }; n, err := strconv.ParseInt(s[i+1:], 10, 64); if err != nil { return false }; return n > maxTextExponent || n < -maxTextExponent`
+
 var primitiveBodies = map[string]string{
 	"ReadInt64":  "c := dec.NextByte(); if c == '-' { return -int64(dec.readUint64(dec.NextByte())) }; return int64(dec.readUint64(c))",
 	"ReadUint64": "c := dec.NextByte(); if c == '-' { return uint64(-int64(dec.readUint64(dec.NextByte()))) }; return dec.readUint64(c)",
@@ -811,6 +887,17 @@ func (g *dtGen) parserOf(name string) string {
 			b10 = "true"
 		}
 		return "PsBig " + dtStr(m[2]) + " " + b10
+	}
+	if m := regexp.MustCompile(`^if !exponentTooLarge\(s\) \{ if (\w+), ok := new\(big\.(Int|Float|Rat)\)\.SetString\(s\); ok \{ return (\w+) \} \}; dec\.decodeStringError\(s, t\.String\(\)\); return nil$`).FindStringSubmatch(s); m != nil && m[1] == m[3] {
+		helper := "missing"
+		if fd := g.p.funcs["exponentTooLarge"]; fd != nil && fd.Body != nil {
+			helper = g.normStmts(fd.Body.List)
+		}
+		if v, ok := g.constValue("maxTextExponent"); ok && v >= 0 && helper == exponentTooLargeBody {
+			return fmt.Sprintf("PsBigGuarded %s %d", dtStr(m[2]), v)
+		}
+		g.unk++
+		return "PsUnknown " + dtStr("exponentTooLarge: "+helper)
 	}
 	g.unk++
 	return "PsUnknown " + dtStr(s)
